@@ -268,6 +268,104 @@ theorem Inv.setAllValues {d : Db} (h : Inv d) (cid : Nat) (k : Str) (v : V) : In
       exact loopRows_pos h cid ln r hr
 
 
+theorem loopKey_unique : ∀ (ls : List LoopRow), ls.Pairwise LoopKeyNe → ∀ a ∈ ls, ∀ b ∈ ls, a.cid = b.cid → a.loopNum = b.loopNum → a = b
+  | [], _, a, ha, _, _, _, _ => nomatch ha
+  | x :: xs, hp, a, ha, b, hb, h1, h2 => by
+    rw [List.pairwise_cons] at hp
+    rcases List.mem_cons.mp ha with rfl | ha' <;> rcases List.mem_cons.mp hb with rfl | hb'
+    · rfl
+    · exact absurd ⟨h1, h2⟩ (hp.1 b hb')
+    · exact absurd ⟨h1.symm, h2.symm⟩ (hp.1 a ha')
+    · exact loopKey_unique xs hp.2 a ha' b hb' h1 h2
+
+/-- SET_CATEGORY_SQL with its triggers tr2_loop / tr4_loop -/
+theorem Inv.setCategory {d d' : Db} (h : Inv d) (cid ln : Nat) (cat : Option Str) (n : Nat)
+    (he : d.setCategory cid ln cat = .ok (d', n)) : Inv d' := by
+  unfold Db.setCategory at he
+  split at he
+  · cases he; exact h
+  · rename_i old hfind
+    split at he; · cases he
+    rename_i hchk1
+    split at he; · cases he
+    rename_i hchk2
+    cases he
+    have hold_mem : old ∈ d.loops := List.mem_of_find?_eq_some hfind
+    have hold_key : old.cid = cid ∧ old.loopNum = ln := by
+      have := List.find?_some hfind
+      simpa using this
+    -- a row with the key is `old`
+    have huniq : ∀ a ∈ d.loops, (a.cid == cid && a.loopNum == ln) = true → a = old := by
+      intro a ha hk
+      simp at hk
+      exact loopKey_unique d.loops h.loopPK a ha old hold_mem (by rw [hk.1, hold_key.1]) (by rw [hk.2, hold_key.2])
+    let f : LoopRow → LoopRow := fun l => if l.cid == cid && l.loopNum == ln then { l with category := cat } else l
+    have hfk : ∀ l, (f l).cid = l.cid ∧ (f l).loopNum = l.loopNum ∧ (f l).lastRowNum = l.lastRowNum := by
+      intro l; simp only [f]; split <;> exact ⟨rfl, rfl, rfl⟩
+    refine ⟨?_, h.itemPK, ?_, ?_, h.rowPos⟩
+    · show (d.loops.map f).Pairwise LoopKeyNe
+      rw [List.pairwise_map]
+      exact h.loopPK.imp (fun {a b} hab ⟨h1, h2⟩ => hab ⟨by rw [← (hfk a).1, ← (hfk b).1, h1], by rw [← (hfk a).2.1, ← (hfk b).2.1, h2]⟩)
+    · show (d.loops.map f).Pairwise ScalarNe
+      rw [List.pairwise_map]
+      have hboth := h.loopPK.and h.scalar1
+      refine hboth.imp_of_mem ?_
+      intro a b ha hb ⟨hk, hs⟩ ⟨h1, h2, h3⟩
+      have hcid : a.cid = b.cid := by rw [← (hfk a).1, ← (hfk b).1, h1]
+      by_cases hma : (a.cid == cid && a.loopNum == ln) = true
+      · -- a is the updated row, b is another row of the same container and is scalar
+        have hmb : (b.cid == cid && b.loopNum == ln) = false := by
+          cases hx : (b.cid == cid && b.loopNum == ln) with
+          | false => rfl
+          | true =>
+            simp at hma hx
+            exact absurd ⟨by rw [hma.1, hx.1], by rw [hma.2, hx.2]⟩ hk
+        have hfa : (f a).category = cat := by simp only [f, hma, if_true]
+        have hfb : f b = b := by simp only [f, hmb]; rfl
+        rw [hfa] at h2; rw [hfb] at h3
+        have haold := huniq a ha hma
+        have hex : d.loops.any (fun l => l.cid == cid && l.category == some []) = true := by
+          simp only [List.any_eq_true]
+          simp at hma
+          exact ⟨b, hb, by simp [← hcid, hma.1, h3]⟩
+        have : old.category = some [] := by
+          cases hoc : (old.category != some []) with
+          | false => simpa using hoc
+          | true => exact absurd (by simp [h2, hoc, hex]) hchk1
+        exact hs ⟨hcid, by rw [haold]; exact this, h3⟩
+      · have hfa : f a = a := by simp only [f, hma]; rfl
+        by_cases hmb : (b.cid == cid && b.loopNum == ln) = true
+        · have hfb : (f b).category = cat := by simp only [f, hmb, if_true]
+          rw [hfa] at h2; rw [hfb] at h3
+          have hbold := huniq b hb hmb
+          have hex : d.loops.any (fun l => l.cid == cid && l.category == some []) = true := by
+            simp only [List.any_eq_true]
+            simp at hmb
+            exact ⟨a, ha, by simp [hcid, hmb.1, h2]⟩
+          have : old.category = some [] := by
+            cases hoc : (old.category != some []) with
+            | false => simpa using hoc
+            | true => exact absurd (by simp [h3, hoc, hex]) hchk1
+          exact hs ⟨hcid, h2, by rw [hbold]; exact this⟩
+        · have hfb : f b = b := by simp only [f, hmb]; rfl
+          rw [hfa] at h2; rw [hfb] at h3
+          exact hs ⟨hcid, h2, h3⟩
+    · show ∀ l ∈ d.loops.map f, l.category = some [] → l.lastRowNum ≤ 1
+      intro l hm hc
+      obtain ⟨a, ha, rfl⟩ := List.mem_map.mp hm
+      rw [(hfk a).2.2]
+      by_cases hma : (a.cid == cid && a.loopNum == ln) = true
+      · have hfa : (f a).category = cat := by simp only [f, hma, if_true]
+        rw [hfa] at hc
+        have haold := huniq a ha hma
+        rw [haold]
+        have : ¬ (old.lastRowNum > 1) := by
+          intro hgt; exact hchk2 (by simp [hc, hgt])
+        omega
+      · have hfa : f a = a := by simp only [f, hma]; rfl
+        rw [hfa] at hc
+        exact h.scalarRows a ha hc
+
 -- ---- transactions: the content and every snapshot a rollback could restore satisfy the invariant ----------------------------
 
 structure InvS (s : Store) : Prop where
@@ -602,5 +700,17 @@ theorem setValue_invS {s : Store} (h : InvS s) (hd : CH) (n : Option Name) (v : 
   split
   · rename_i s2 _ he; rw [he] at h2; exact h2.commitD s2 h2
   · rename_i s2 c he; rw [he] at h2; exact h2.rollbackD s2 h2
+
+
+theorem setCategory_invS {s : Store} (h : InvS s) (l : LH) (cat : Option Str) : InvS (setCategory s l cat).1 := by
+  unfold setCategory
+  split; · exact h
+  split
+  · exact h
+  · rename_i d1 n he
+    simp only []
+    split
+    · exact h.setDb (h.db.setCategory _ _ _ _ he)
+    · split <;> exact h.setDb (h.db.setCategory _ _ _ _ he)
 
 end CifModel.Store
